@@ -1,5 +1,5 @@
 INIT Init
-NEXT Next
+NEXT BehNext
 CONSTANTS
   QLen = 128
   FutureSlots = 3
@@ -8,14 +8,16 @@ CONSTANTS
   Metrics <- BMetrics
   TimingShard = 1
   T0 <- R0
+  Lags0 = {2, 6}
+  Fulls0 = {FALSE}
   Ticks <- BTicks
   TsOffs <- BOffs
   Kinds = {"metric", "api"}
   SpreadOf <- EdgeSpread
   Variant = "code"
-  MaxOps = 4
+  MaxOps = 5
   MaxEvents = 2
 VIEW View
 INVARIANTS ExactlyOnce AllFlushed NotEarly RingOK Rounded Placement DropsJustified OutIncreasing SendBound ChanCap
-ACTION_CONSTRAINT Export
+ACTION_CONSTRAINT ExportEnd
 CHECK_DEADLOCK FALSE
